@@ -6,6 +6,7 @@ Theorems about the model's text node (`htmlOut`, used by `execNode`), the
 from `/repo/lexer.go`) and the parser's flag computation.
 -/
 import Pongo.Model.Exec
+import Pongo.Lemmas.Eval
 import Pongo.Model.ParseDoc
 import Pongo.Gen.LexTables
 import Pongo.Lemmas.Spaceless
@@ -250,6 +251,17 @@ example : spaceless b!"<a> <b> <c> x <d>\n</d>" = b!"<a><b><c> x <d></d>" := by 
 example : spaceless b!" <a>  text <b> " = b!" <a>  text <b> " := by decide
 
 /-! ### lexer and parser: where the flags come from (tables regenerated from `/repo/lexer.go`) -/
+
+/-- **The `spaceless` tag is `spaceless` applied to its rendered body**: whatever the body is, if
+    it renders (into a buffer of its own) to `out`, the tag writes `spaceless out` — by
+    `spaceless_only_deletes_whitespace`, `out` with some whitespace deleted — and nothing else. -/
+theorem spaceless_tag_filters_rendered_body (T : LexTables) (cfg : SetCfg) (g : Env) (fuel : Nat) (body : List Node)
+    (σ σ1 : ES) (out : Bytes) (hbody : (buffered (execNodes T cfg g fuel body)).run σ = .ok out σ1) :
+    (execNode T cfg g (fuel + 1) (.tagSpaceless body)).run σ = .ok () { σ1 with out := σ1.out ++ spaceless out } := by
+  unfold execNode
+  simp only []
+  rw [run_bind_ok hbody]
+  rfl
 
 /-- the three-byte delimiters win over their two-byte prefixes / the bare `-` -/
 theorem gen_dashed_delimiters_recognised_first (rest : Bytes) :
